@@ -589,6 +589,10 @@ func c12Run(c c12Case) Outcome {
 				}
 				return fail("follow-up-unresolved", "%s: follow-up request %s never resolved; client goroutines:\n%s", desc, tag, c12Dump())
 			}
+			if late2 && fc.Err != nil && strings.Contains(fc.Err.Error(), "timed out") {
+				// the follow-up's own 250 ms timer ran out before this loop had answered it (loaded machine)
+				return Outcome{Inconcl: "follow-up request after late frames hit MaxResponseTime before the scripted server answered (machine too slow)"}
+			}
 			if late2 && fc.Err != nil {
 				return fail("follow-up-failed-after-late-frames", "%s: after the callers had timed out the server delivered the rest of its (well-formed) stream; follow-up request %s on the same connection then failed: %v", desc, tag, fc.Err)
 			}
